@@ -217,8 +217,31 @@ def mode_ml_mstep(p):
         rs = np.random.RandomState(seed)
         C, D, N = rs.randint(1, 4), rs.randint(1, 4), rs.randint(8, 30)
         x = rs.normal(size=(N, D)) * 1.5 + 3
+        extra = {}
+        if seed % 3 == 1:
+            # a non-default count threshold together with features in small units (variances far below the count threshold):
+            # the count threshold is a number of frames, not a variance
+            x = x * np.array([1e-3, 1.0, 1e-2])[:D]
+            extra = dict(mean_var_update_threshold=1e-3)
+        # the criterion returned by m_step for several blocks of unequal size is the average over ALL samples
+        import bob.learn.em.gmm as g_
+        mm_ = mk(C, D, seed, update_means=True, update_variances=True, update_weights=True, **extra)
+        if extra:
+            mm_.variances = mm_.variances * (np.array([1e-3, 1.0, 1e-2])[:D] ** 2)
+            mm_.means = mm_.means * np.array([1e-3, 1.0, 1e-2])[:D]
+        cut = max(1, N // 5)
+        whole = float(np.mean(ref_ll(x, mm_.weights, mm_.means, mm_.variances)))
+        blocks = [g_.e_step(x[:cut], mm_), g_.e_step(x[cut:], mm_)]
+        _, avg = g_.m_step(blocks, mm_)
+        if not close(float(avg), whole, 1e-9):
+            return {"input": {"x": x.tolist(), "block_sizes": [cut, N - cut]}, "observed": float(avg), "expected": whole,
+                    "what": "m_step over two blocks of unequal size returns %.9g, the average log-likelihood of all samples is %.9g" % (float(avg), whole)}
         for um, uv, uw in itertools.product((True, False), repeat=3):
-            m = mk(C, D, seed, update_means=um, update_variances=uv, update_weights=uw, max_fitting_steps=1)
+            m = mk(C, D, seed, update_means=um, update_variances=uv, update_weights=uw, max_fitting_steps=1, **extra)
+            if extra:
+                m.variance_thresholds = 1e-12
+                m.variances = m.variances * (np.array([1e-3, 1.0, 1e-2])[:D] ** 2)
+                m.means = m.means * np.array([1e-3, 1.0, 1e-2])[:D]
             m0 = {"w": m.weights.copy(), "mu": m.means.copy(), "v": m.variances.copy()}
             st = ref_estep(x, m0["w"], m0["mu"], m0["v"])
             ll0 = float(np.mean(ref_ll(x, m0["w"], m0["mu"], m0["v"])))
